@@ -361,7 +361,7 @@ def live_sessions(run, thorough):
                                          rng.random() < 0.3):
             # more than one write batch (300 packets) still queued when the
             # flushing disconnect comes
-            n = (301, 1500, 300, 450, 299)[(ci // len(LIVE_MODES)) % 5]
+            n = (301, 5000, 300, 450, 299, 1500)[(ci // len(LIVE_MODES)) % 6]
             run.count('live_sessions_over_one_write_batch', int(n > 300))
         k = rng.randrange(0, min(n, 12))
         from_listener = rng.random() < 0.6 or mode != 'none'
